@@ -245,6 +245,9 @@ func runC13(p *eng.Prog, r *eng.Report, tier string) {
 	})
 	r.Note("C13.9: %d start-element edges in token loops examined", nl)
 	c13StreamErrorArms(c, "C13.21")
+	decodedStanzaNotRewritten(c, "C13.25", []string{"stanza.UnmarshalIQError"}, 1)
+	c13EveryTextWritten(c, "C13.24")
+	attrGetNotUsed(c, "C13.23")
 	noManualEscaping(c, "C13.22", func(f *eng.Fn) bool {
 		return strings.HasPrefix(f.Short, "stanza.") || strings.HasPrefix(f.Short, "stream.") || strings.HasPrefix(f.Short, "internal/saslerr.")
 	})
@@ -512,4 +515,105 @@ func c13StreamErrorArms(c *cx, id string) {
 		}
 		c.r.Check(id, f, "child "+k.name, "E-fin: for this class of child the condition is stored: "+boolStr(k.wantErr)+", a text is appended: "+boolStr(k.wantTx)+" (edges contradicting the class are cut, then the stores are tested for reachability)", pos, gotErr == k.wantErr && gotTx == k.wantTx, "condition stored: "+boolStr(gotErr)+", text appended: "+boolStr(gotTx))
 	}
+}
+
+// decodedStanzaNotRewritten (C13.25 / C14.10): a stanza value that stanza.NewIQ /
+// NewMessage / NewPresence built from a start element is what the element
+// said: the function that obtained it does not assign to any of its fields
+// afterwards. Filling in "the obvious" - a missing sender from the error's by
+// attribute, a missing type as get - makes the decoded value differ from the
+// encoded one, and makes the multiplexer look the stanza up under a type it
+// does not have.
+func decodedStanzaNotRewritten(c *cx, id string, fns []string, floor int) {
+	n := 0
+	for _, name := range fns {
+		i := strings.Index(name, ".")
+		f := c.fn(id, name[:i], name[i+1:])
+		if f == nil {
+			continue
+		}
+		g := f.Graph()
+		decoded := map[*types.Var]bool{}
+		for _, d := range g.AllDefs() {
+			if d.RHS == nil || d.Var == nil {
+				continue
+			}
+			if cl, ok := ast.Unparen(d.RHS).(*ast.CallExpr); ok {
+				switch f.CalleeID(cl) {
+				case "stanza.NewIQ", "stanza.NewMessage", "stanza.NewPresence":
+					if d.Index == 0 {
+						decoded[d.Var] = true
+					}
+				}
+			}
+		}
+		n += len(decoded)
+		for _, w := range f.Writes() {
+			sel, ok := ast.Unparen(w.LHS).(*ast.SelectorExpr)
+			if !ok {
+				continue
+			}
+			if v := rootLocal(f, sel); v != nil && decoded[v] {
+				c.r.Check(id, f, "field of the decoded stanza assigned", "W: the value built from the start element is not edited by the function that decoded it", w.Stmt.Pos(), false, types.ExprString(w.LHS)+" is overwritten after decoding: the value no longer says what the element said")
+			}
+		}
+		c.r.Check(id, f, "decoded stanza left as decoded", "W: no field of a value obtained from stanza.New* is assigned in "+f.Short, f.Pos(), true, "")
+	}
+	c.r.Floor(id, "stanza values decoded from a start element", n, floor)
+}
+
+// c13EveryTextWritten (C13.24): stream.Error.TokenReader writes one <text/> for
+// every entry of Error.Text: each iteration of its loop over the texts reaches
+// the next one only through the statement that adds the element to the output
+// (no entry is filtered out: the decoder appends every <text/> it meets, and
+// two texts may share a language - or have none).
+func c13EveryTextWritten(c *cx, id string) {
+	f := c.fn(id, "stream", "Error.TokenReader")
+	if f == nil {
+		return
+	}
+	g := f.Graph()
+	n := 0
+	f.WalkBody(func(nd ast.Node) bool {
+		rs, ok := nd.(*ast.RangeStmt)
+		if !ok || !strings.HasSuffix(f.Norm(rs.X, nil), ".Text") {
+			return true
+		}
+		vid, _ := rs.Value.(*ast.Ident)
+		body, head, done, okp := g.LoopPoints(rs)
+		if !okp || vid == nil {
+			c.r.Unresolved(id, "loop over Error.Text")
+			return true
+		}
+		n++
+		vo := f.Info().ObjectOf(vid)
+		// the emitting statement: an append / MultiReader / Wrap whose operands mention the loop variable's Value
+		isEmit := func(q eng.Point, x ast.Node) bool {
+			found := false
+			ast.Inspect(x, func(y ast.Node) bool {
+				cl, ok := y.(*ast.CallExpr)
+				if !ok {
+					return !found
+				}
+				cid := f.CalleeID(cl)
+				if cid != "builtin.append" && !strings.HasPrefix(cid, "mellium.im/xmlstream.") {
+					return !found
+				}
+				ast.Inspect(cl, func(z ast.Node) bool {
+					if sel, ok := z.(*ast.SelectorExpr); ok && sel.Sel.Name == "Value" {
+						if idn, ok := ast.Unparen(sel.X).(*ast.Ident); ok && f.Info().ObjectOf(idn) == vo {
+							found = true
+						}
+					}
+					return !found
+				})
+				return !found
+			})
+			return found
+		}
+		okw := g.MustPassBefore(body, head, isEmit, nil) && g.MustPassBefore(body, done, isEmit, nil)
+		c.r.Check(id, f, "every text entry is written", "O: each iteration of the loop over Error.Text adds that entry's element to the output before the next iteration", rs.Pos(), okw, "an iteration can go on without writing its text: the encoded error has fewer texts than the value")
+		return true
+	})
+	c.r.Floor(id, "loops over Error.Text in the encoder", n, 1)
 }
